@@ -74,6 +74,7 @@ pub fn graph<'tcx>(tcx: TyCtxt<'tcx>) -> J {
         o.push(("id", J::Num(ids[&inst] as i128)));
         o.push(("inst", J::s(format!("{}", inst))));
         o.push(("path", J::s(defpath(tcx, did))));
+        o.push(("dp", J::s(dp(tcx, did))));
         if !matches!(inst.def, ty::InstanceKind::Item(_)) || !did.is_local() || !tcx.is_mir_available(did) {
             o.push(("opaque", J::Bool(true)));
             out.push(J::Obj(o));
